@@ -56,6 +56,7 @@ def run_scenario(scn: dict, *, fast: bool = False, eager: bool = False) -> dict:
         rec.emit(ev="quiescent", **obs())
 
     ctl = ScenarioController(scn["env"], fire, quiescent)
+    ctl.recorder = rec
 
     async def client(t: int, script: list[str]) -> None:
         lock = state["lock"]
